@@ -33,7 +33,10 @@ EXPLANATION = (
     "override first and assigns its cache once, after the directory test. "
     "R14.3: Scheme.Load reads the file it is given on every call (no "
     "cache), compiles both pattern lists through Read, and the loader "
-    "stores the uncertainty block as read.")
+    "stores the uncertainty block as read. R14.4: the evaluators raise "
+    "under the reviewed conditions. R14.5: for a scalar temperature the "
+    "table correlation returns a plain number (no array helper, no numpy "
+    "constructor on that branch).")
 NOT_DECIDED = ("that evaluation of every group yields finite numbers "
                "across its range (needs the spline); behaviour of os.path "
                "on exotic paths")
